@@ -283,6 +283,13 @@ def run(ctx):
                 if name == "openrange:merge=True":
                     base += ["KF12"]
                 combos = [c for n in range(1, len(base) + 1) for c in itertools.combinations(base, n)]
+                # the known findings are about what a tree with this CONTENT prints to: when the same tree rebuilt from
+                # its content through the constructors prints another text, the failure lies in the state of the
+                # transformer's result (seeded C11-H: a print template made at construction, stale after the merge
+                # assigns the inclusiveness in place), and no finding covers that
+                plain = common.load_tree(td)
+                if plain.__str__(head_tail=True) != printed:
+                    combos = []
                 for kinds in combos:
                     if explained and len(kinds) > len(explained[0].split("+")):
                         break          # only minimal explanations
